@@ -52,17 +52,23 @@ def catalogue(tier: str):
          {}, ('a',)),
         ('prev-f2:stop-task-1a', P1(shapes['prev']), 2, [task('1/a')],
          {}, ()),
+        # the stop task may fail; no other stop request, no restart
+        ('chain2-f1:stop-task-a:alone', P1(shapes['chain2']), 1,
+         [task('1/a')], {'stops': (), 'restarts': 0}, ('a',)),
         ('chain2-f2:stopcp-option-1', P1(shapes['chain2']), 2, [],
          {'options': {'stopcp': '1'}, 'stop': 1}, ()),
     ]
     if tier == 'thorough':
+        # the workflows above get a second restart and stop --now --now;
+        # the ones below keep one restart
+        one = {'restarts': 1}
         rows += [
             ('chain2-f2:stop-point-1', P1(shapes['chain2']), 2, [cp(1)],
-             {}, ()),
+             dict(one), ()),
             ('prev-f3:stop-point-1-2', P1(shapes['prev']), 3,
-             [cp(1), cp(2)], {}, ()),
+             [cp(1), cp(2)], dict(one), ()),
             ('chain2-f2:stop-task-1b', P1(shapes['chain2']), 2,
-             [task('1/b')], {}, ()),
+             [task('1/b')], dict(one), ()),
         ]
     specs = []
     for name, secs, fcp, ops, extra, fails in rows:
@@ -88,8 +94,10 @@ def make_factory(spec, tier='quick'):
     def factory():
         outcomes = {t: ['succeeded', 'failed'] for t in spec['fail_tasks']}
         return StopProfile(
-            spec, ops=ops, op_budget=1, stops=stops_for(tier),
-            max_restarts=2 if tier == 'thorough' else 1,
+            spec, ops=ops, op_budget=1,
+            stops=spec.get('stops', stops_for(tier)),
+            max_restarts=spec.get(
+                'restarts', 2 if tier == 'thorough' else 1),
             monitors=[StopSemantics, SubmitOnce, PoolInvariants],
             outcomes=outcomes, jump=())
     return factory
@@ -137,7 +145,9 @@ def run(ctx: Ctx) -> Result:
                 'stop modes': list(stops_for(ctx.tier)),
                 'stop requests offered at': 'every main-loop boundary',
                 'stop <point>/<task> commands per execution': 1,
-                'restarts per execution': ctx.pick(1, 2)},
+                'restarts per execution': ctx.pick(
+                    1, '2 (1 in chain2-f2:stop-point-1, chain2-f2:'
+                    'stop-task-1b, prev-f3:stop-point-1-2)')},
         assumptions=ASSUME, min_states=100,
         extra_cov={'observed': dict(sorted(counts.items()))})
 
